@@ -586,6 +586,12 @@ impl<'a> Gen<'a> {
         let mut body: Vec<Vec<Vec<Inl>>> = (0..rows)
             .map(|_| (0..cols).map(|_| self.inlines(1, 2, true, true)).collect())
             .collect();
+        // text between angle brackets that is no tag (a key, an arrow): stays text, pass after pass
+        if self.rng.chance(1, 8) {
+            if let Some(cell) = body.last_mut().and_then(|r| r.last_mut()) {
+                cell.push(Inl::W(self.rng.pick(&["<Ctrl+C>", "<=>", "<1ms>"]).to_string()));
+            }
+        }
         // a cell that ends in a backslash (a Windows path): the backslash must not reach the pipe that closes the cell
         if self.rng.chance(1, 8) {
             if let Some(cell) = body.first_mut().and_then(|r| r.first_mut()) {
